@@ -141,6 +141,30 @@ type netNode struct {
 	cpHeight uint64
 }
 
+// stallingCM is a slow node: every k-th answer to a header request is held
+// back for a while after it has been computed (a stalled disk or scheduler
+// between computing a response and writing it), so that whatever the node
+// does in the meantime - finding and announcing a block, say - overtakes it.
+type stallingCM struct {
+	syncer.ChainManager
+	mu    sync.Mutex
+	calls int
+	every int
+	stall time.Duration
+}
+
+func (c *stallingCM) Headers(index types.ChainIndex, max uint64) ([]types.BlockHeader, uint64, error) {
+	hs, rem, err := c.ChainManager.Headers(index, max)
+	c.mu.Lock()
+	c.calls++
+	hold := err == nil && len(hs) > 0 && c.calls%c.every == 0
+	c.mu.Unlock()
+	if hold {
+		time.Sleep(c.stall)
+	}
+	return hs, rem, err
+}
+
 func newNetNode(e *sim.Env, inv string, net_ *gen.Net, nw *simnet.Net, i int, cm syncer.ChainManager, s *chainSUT, opts ...syncer.Option) *netNode {
 	return newNetNodeAt(e, net_, nw, i, fmt.Sprintf("10.%d.0.%d", i/200, i%200+1), true, cm, s, opts...)
 }
